@@ -111,8 +111,9 @@ func (s *tcpSink) waitFor(n int, d time.Duration) bool {
 
 func runTCP(c *core.Ctx, id string, idx int) {
 	rng := c.Rand("tcp", idx)
-	cv, sv := variant(idx%4), variant((idx/4)%4)
-	size := bufSizes[(idx/16)%len(bufSizes)]
+	q := idx + idx/16 + idx/64 // diagonalised so that every shard sees every configuration
+	cv, sv := variant(q%4), variant((q/4)%4)
+	size := bufSizes[(q/16)%len(bufSizes)]
 	tc := &tcpCase{Client: variantNames[cv], Server: variantNames[sv], Size: size, eff: effective(size)}
 	tc.c2s = append(genOps(rng, tc.eff, size, false), op{opFlush, nil})
 	tc.s2c = append(genOps(rng, tc.eff, size, false), op{opFlush, nil})
